@@ -144,8 +144,11 @@ def Sense.holds : Sense → Int → Int → Prop
   | .ge, a, b => a ≥ b
   | .eq, a, b => a = b
 
-instance (s : Sense) (a b : Int) : Decidable (s.holds a b) := by
-  cases s <;> simp only [Sense.holds] <;> infer_instance
+instance (s : Sense) (a b : Int) : Decidable (s.holds a b) :=
+  match s with
+  | .le => inferInstanceAs (Decidable (a ≤ b))
+  | .ge => inferInstanceAs (Decidable (a ≥ b))
+  | .eq => inferInstanceAs (Decidable (a = b))
 
 inductive VType | bin | int
   deriving DecidableEq, Repr
@@ -158,16 +161,33 @@ structure VarDecl (V : Type) where
   lb : Option Int
   ub : Option Int
 
-def VarDecl.ok {V : Type} (σ : V → Int) (d : VarDecl V) : Prop :=
-  match d.vtype with
-  | .bin => σ d.v = 0 ∨ σ d.v = 1
-  | .int => (∀ l, d.lb = some l → l ≤ σ d.v) ∧ (∀ u, d.ub = some u → σ d.v ≤ u)
+/-- `l ≤ x` for an optional lower bound. -/
+def optLe (l : Option Int) (x : Int) : Prop :=
+  match l with
+  | none => True
+  | some l => l ≤ x
+/-- `x ≤ u` for an optional upper bound. -/
+def optGe (u : Option Int) (x : Int) : Prop :=
+  match u with
+  | none => True
+  | some u => x ≤ u
 
-instance {V : Type} (σ : V → Int) (d : VarDecl V) : Decidable (d.ok σ) := by
-  unfold VarDecl.ok
-  split
-  · infer_instance
-  · cases d.lb <;> cases d.ub <;> simp <;> infer_instance
+instance (l : Option Int) (x : Int) : Decidable (optLe l x) :=
+  match l with
+  | none => isTrue trivial
+  | some l => inferInstanceAs (Decidable (l ≤ x))
+instance (u : Option Int) (x : Int) : Decidable (optGe u x) :=
+  match u with
+  | none => isTrue trivial
+  | some u => inferInstanceAs (Decidable (x ≤ u))
+
+def VarDecl.ok {V : Type} (σ : V → Int) (d : VarDecl V) : Prop :=
+  (d.vtype = .bin → (σ d.v = 0 ∨ σ d.v = 1)) ∧
+  (d.vtype = .int → (optLe d.lb (σ d.v) ∧ optGe d.ub (σ d.v)))
+
+instance {V : Type} (σ : V → Int) (d : VarDecl V) : Decidable (d.ok σ) :=
+  inferInstanceAs (Decidable ((d.vtype = .bin → (σ d.v = 0 ∨ σ d.v = 1)) ∧
+    (d.vtype = .int → (optLe d.lb (σ d.v) ∧ optGe d.ub (σ d.v)))))
 
 inductive Constr (V : Type) where
   | lin (name : String) (e : LinExpr V) (s : Sense) (rhs : Int)
@@ -188,8 +208,12 @@ def Constr.holds {V : Type} (σ : V → Int) : Constr V → Prop
   | .ind _ b val e s rhs => σ b = val → s.holds (e.eval σ) rhs
   | .and _ r args => σ r = if (∀ a ∈ args, σ a = 1) then 1 else 0
 
-instance {V : Type} (σ : V → Int) (c : Constr V) : Decidable (c.holds σ) := by
-  cases c <;> simp only [Constr.holds] <;> infer_instance
+instance {V : Type} (σ : V → Int) (c : Constr V) : Decidable (c.holds σ) :=
+  match c with
+  | .lin _ e s rhs => inferInstanceAs (Decidable (s.holds (e.eval σ) rhs))
+  | .quad _ e s rhs => inferInstanceAs (Decidable (s.holds (e.eval σ) rhs))
+  | .ind _ b val e s rhs => inferInstanceAs (Decidable (σ b = val → s.holds (e.eval σ) rhs))
+  | .and _ r args => inferInstanceAs (Decidable (σ r = if (∀ a ∈ args, σ a = 1) then 1 else 0))
 
 /-- A model: declarations, constraints and the objective (always maximised by
 `ilp_scheduler.py`). -/
@@ -202,8 +226,8 @@ structure Model (V : Type) where
 def sat {V : Type} (σ : V → Int) (m : Model V) : Prop :=
   (∀ d ∈ m.vars, d.ok σ) ∧ (∀ c ∈ m.constrs, c.holds σ)
 
-instance {V : Type} (σ : V → Int) (m : Model V) : Decidable (sat σ m) := by
-  unfold sat; infer_instance
+instance {V : Type} (σ : V → Int) (m : Model V) : Decidable (sat σ m) :=
+  inferInstanceAs (Decidable ((∀ d ∈ m.vars, d.ok σ) ∧ (∀ c ∈ m.constrs, c.holds σ)))
 
 def objective {V : Type} (σ : V → Int) (m : Model V) : Int := m.obj.eval σ
 
